@@ -972,7 +972,7 @@ func (s *Sched) waitEnd() {
 func Run(prefix []int, cfg Config, body func()) *Result {
 	s := &Sched{cfg: cfg, prefix: prefix, endCh: make(chan struct{})}
 	if s.cfg.MaxSteps == 0 {
-		s.cfg.MaxSteps = 2_000_000
+		s.cfg.MaxSteps = 300_000
 	}
 	S = s
 	g0 := s.newG(nil)
